@@ -37,7 +37,7 @@ ASSUMPTIONS = [
     "string formatting (show), pandas/tfs constructors are outside",
 ]
 BOUNDS = {
-    "quick": "source tables with 0..3 rows; chains of <=3 operations out of {rows (positions, mask, slice, symbolic value range), cols, +, * (1..2), concatenate, _copy, _t, new column, del column, pop column} "
+    "quick": "source tables with 0..3 rows (int / float / string / object columns and a 2-D column holding one vector per row); chains of <=3 operations out of {rows (positions, mask, slice, symbolic value range), cols, +, * (1..2), concatenate, _copy, _t, new column, del column, pop column} "
              "over the pool (third operation restricted to structural changes and re-derivations), every table re-checked after every operation; column expressions on every table",
     "thorough": "0..4 rows, chains of 3 unrestricted operations",
 }
@@ -104,7 +104,11 @@ def check_table(ex, t, mo, det):
         for i, (got, exp) in enumerate(zip(col, mo.cols[c])):
             if got is exp:
                 continue
-            if isinstance(exp, str) or isinstance(got, str):
+            if isinstance(exp, np.ndarray) or isinstance(got, np.ndarray):
+                if not (isinstance(got, np.ndarray) and isinstance(exp, np.ndarray) and got.shape == exp.shape and np.array_equal(got, exp)):
+                    ex.fail(f"{mo.label}: cell {c}[{i}] (a vector per row) is {got!r}, expected {exp!r}", det)
+                    return False
+            elif isinstance(exp, str) or isinstance(got, str):
                 if str(got) != str(exp):
                     ex.fail(f"{mo.label}: cell {c}[{i}] is {got!r}, expected {exp!r}", det)
                     return False
@@ -154,11 +158,13 @@ def source_table(ex, xd, n, tag):
         "b": [ex.int(f"{tag}b{i}") for i in range(n)],
         "o": [ex.int(f"{tag}o{i}") for i in range(n)],
         "w": [float(i) + 0.5 for i in range(n)],
+        "vec": [np.array([10.0 * i + 1, 10.0 * i + 2]) for i in range(n)],
     }
     data = {"name": np.array(names) if n else np.array([], dtype="U1"),
             "a": np.array(cols["a"], dtype=object), "b": np.array(cols["b"], dtype=object),
-            "o": np.array(cols["o"], dtype=object), "w": np.array(cols["w"], dtype=float), "sc": 42}
-    t = xd.Table(data, col_names=["name", "a", "b", "o", "w"])
+            "o": np.array(cols["o"], dtype=object), "w": np.array(cols["w"], dtype=float),
+            "vec": np.array(cols["vec"], dtype=float).reshape(n, 2), "sc": 42}
+    t = xd.Table(data, col_names=["name", "a", "b", "o", "w", "vec"])
     return t, Model(cols, "name", {"sc": 42}, tag)
 
 
